@@ -164,7 +164,7 @@ Example C13_ex_ops_prims :
 Proof. repeat split; vm_compute; reflexivity. Qed.
 
 Example C13_ex_ops_fill :
-  let xs := xprims_unser [] parse_units_float 20 0 (nenv0 ex13_env ex13_scope) ex13_env ex13_scope ex13_v in
+  let xs := xprims_unser [] parse_units_float false 20 0 (nenv0 ex13_env ex13_scope) ex13_env ex13_scope ex13_v in
   let sh := shape_of xs true in
   let st1 := snd (run_prims sh true cs_empty (map prim_of xs)) in
   newly_filled cs_empty st1 = [CUnitsRe 4; CUnitsSorted 4; CDefaults 1]
@@ -182,4 +182,27 @@ Example C13_ex_isolation :
   /\ is_ok (unser [] parse_units_float 20 ex13_env ex13_scope ex13_v) = true.
 Proof.
   split; [apply vfill_coherent, vcoherent_nil|]. repeat split; vm_compute; reflexivity.
+Qed.
+
+(* `op_st` reads the cache as it was when the call started.  In the code a cell may be filled — by this
+   call or by another thread — between two reads of one call.  Let EVERY READ find its own cache state
+   (any function of what is read: the state found by the integer / float unit parser on (definition, text),
+   the state found when a default text is looked up), all coherent: the call still returns exactly what
+   the pure function returns. *)
+Theorem C13_isolation_ops_any_read_state :
+  forall words puw st_int st_float st_json f e s (k : C12History.call),
+  (forall u x, vcoherent (e_or e) (st_int u x)) -> (forall u x, vcoherent (e_or e) (st_float u x)) ->
+  (forall t, vcoherent (e_or e) (st_json t)) ->
+  run_r words puw st_int st_float st_json f e s k = C12History.run words (pu0 puw) f e s k.
+Proof. exact run_r_coherent. Qed.
+Print Assumptions C13_isolation_ops_any_read_state.
+
+Example C13_ex_any_read_state :
+  (* reads of the integer parser find the expression already compiled, reads of defaults find an empty cache *)
+  let st_int := fun (_ : units) (_ : string) => vfill ex13_or [] [KRe ex13_u; KSorted ex13_u] in
+  (forall u x, vcoherent ex13_or (st_int u x)) /\
+  run_r [] parse_units_float_with st_int (fun _ _ => []) (fun _ => []) 20 ex13_env ex13_scope (C12History.CUnser ex13_v)
+  = C12History.run [] parse_units_float 20 ex13_env ex13_scope (C12History.CUnser ex13_v).
+Proof.
+  split; [intros; apply vfill_coherent, vcoherent_nil | vm_compute; reflexivity].
 Qed.
